@@ -768,7 +768,7 @@ var _ = bits.Len64
 func QuoteName(n string) string {
 	ok := true
 	for _, r := range n {
-		if !(r >= 'a' && r <= 'z' || r >= 'A' && r <= 'Z' || r >= '0' && r <= '9' || r == '_' || r == '!' || r == '.' || r == '$' || r == '#') {
+		if !(r >= 'a' && r <= 'z' || r >= 'A' && r <= 'Z' || r >= '0' && r <= '9' || r == '_' || r == '!' || r == '.') {
 			ok = false
 		}
 	}
